@@ -300,6 +300,165 @@ def api_routes__InitRoutes : List String := [
 def api_routes__names : List String := [
   "InitRoutes"]
 
+/-- src/api/server.go:StartHttpServerWithTCP -/
+def api_server__StartHttpServerWithTCP : List String := [
+  "func StartHttpServerWithTCP(useLogger bool, port int, project app.IProject) (*http.Server, error) {",
+  "router := getRouter(useLogger, project)",
+  "endPoint := fmt.Sprintf(\":%d\", port)",
+  "server := &http.Server{Addr: endPoint, Handler: router.Handler()}",
+  "go func() {",
+  "if err := server.ListenAndServe(); err != nil && err != http.ErrServerClosed {",
+  "}",
+  "}()",
+  "return server, nil",
+  "}"]
+
+/-- src/api/server.go:StartHttpServerWithUnixSocket -/
+def api_server__StartHttpServerWithUnixSocket : List String := [
+  "func StartHttpServerWithUnixSocket(useLogger bool, unixSocket string, project app.IProject) (*http.Server, error) {",
+  "router := getRouter(useLogger, project)",
+  "_, err := net.Dial(\"unix\", unixSocket)",
+  "if err == nil {",
+  "}",
+  "os.Remove(unixSocket)",
+  "server := &http.Server{Handler: router.Handler()}",
+  "listener, err := net.Listen(\"unix\", unixSocket)",
+  "if err != nil {",
+  "return server, err",
+  "}",
+  "go func() {",
+  "defer listener.Close()",
+  "defer os.Remove(unixSocket)",
+  "if err := server.Serve(listener); err != nil && err != http.ErrServerClosed {",
+  "}",
+  "}()",
+  "return server, nil",
+  "}"]
+
+/-- src/api/server.go:getRouter -/
+def api_server__getRouter : List String := [
+  "func getRouter(useLogger bool, project app.IProject) *gin.Engine {",
+  "if os.Getenv(EnvDebugMode) == \"\" {",
+  "gin.SetMode(gin.ReleaseMode)",
+  "useLogger = false",
+  "}",
+  "return InitRoutes(useLogger, NewPcApi(project))",
+  "}"]
+
+/-- src/api/server.go: its functions -/
+def api_server__names : List String := [
+  "StartHttpServerWithUnixSocket",
+  "StartHttpServerWithTCP",
+  "getRouter"]
+
+/-- src/api/ws_api.go:PcApi.HandleLogsStream -/
+def api_ws_api__PcApi_HandleLogsStream : List String := [
+  "func (api *PcApi) HandleLogsStream(c *gin.Context) {",
+  "procNamesStr := c.Query(\"name\")",
+  "procNames := strings.Split(procNamesStr, \",\")",
+  "follow := c.Query(\"follow\") == \"true\"",
+  "endOffset, err := strconv.Atoi(c.Query(\"offset\"))",
+  "if err != nil {",
+  "c.JSON(http.StatusBadRequest, gin.H{\"error\": err.Error()})",
+  "return",
+  "}",
+  "ws, err := upgrader.Upgrade(c.Writer, c.Request, nil)",
+  "if err != nil {",
+  "c.JSON(http.StatusBadRequest, gin.H{\"error\": err.Error()})",
+  "return",
+  "}",
+  "done := make(chan struct{})",
+  "if follow {",
+  "go handleIncoming(ws, done)",
+  "}",
+  "for _, procName := range procNames {",
+  "logChan := make(chan LogMessage, 256)",
+  "chanCloseMtx := &sync.Mutex{}",
+  "isChannelClosed := false",
+  "connector := pclog.NewConnector(func(messages []string) {",
+  "for _, message := range messages {",
+  "msg := LogMessage{Message: message, ProcessName: procName}",
+  "logChan <- msg",
+  "}",
+  "if !follow {",
+  "chanCloseMtx.Lock()",
+  "defer chanCloseMtx.Unlock()",
+  "close(logChan)",
+  "isChannelClosed = true",
+  "}",
+  "}, func(message string) (n int, err error) {",
+  "msg := LogMessage{Message: message, ProcessName: procName}",
+  "chanCloseMtx.Lock()",
+  "defer chanCloseMtx.Unlock()",
+  "if isChannelClosed {",
+  "return 0, nil",
+  "}",
+  "logChan <- msg",
+  "return len(message), nil",
+  "}, endOffset)",
+  "go api.handleLog(ws, procName, connector, logChan, done)",
+  "err = api.project.GetLogsAndSubscribe(procName, connector)",
+  "if err != nil {",
+  "return",
+  "}",
+  "}",
+  "}"]
+
+/-- src/api/ws_api.go:PcApi.handleLog -/
+def api_ws_api__PcApi_handleLog : List String := [
+  "func (api *PcApi) handleLog(ws *websocket.Conn, procName string, connector *pclog.Connector, logChan chan LogMessage, done chan struct{}) {",
+  "defer func(project app.IProject, name string, observer pclog.LogObserver) {",
+  "err := project.UnSubscribeLogger(name, observer)",
+  "if err != nil {",
+  "}",
+  "}(api.project, procName, connector)",
+  "defer ws.Close()",
+  "for {",
+  "select {",
+  "case msg, open := <-logChan:",
+  "api.wsMtx.Lock()",
+  "err := ws.WriteJSON(&msg)",
+  "api.wsMtx.Unlock()",
+  "if err != nil {",
+  "if errors.Is(err, net.ErrClosed) {",
+  "return",
+  "}",
+  "return",
+  "}",
+  "if !open {",
+  "return",
+  "}",
+  "case <-done:",
+  "close(logChan)",
+  "return",
+  "}",
+  "}",
+  "}"]
+
+/-- src/api/ws_api.go:handleIncoming -/
+def api_ws_api__handleIncoming : List String := [
+  "func handleIncoming(ws *websocket.Conn, done chan struct{}) {",
+  "defer close(done)",
+  "for {",
+  "msgType, _, err := ws.ReadMessage()",
+  "if err != nil {",
+  "if websocket.IsCloseError(err, websocket.CloseNormalClosure) {",
+  "return",
+  "}",
+  "if msgType == -1 {",
+  "return",
+  "}",
+  "return",
+  "}",
+  "}",
+  "}"]
+
+/-- src/api/ws_api.go: its functions -/
+def api_ws_api__names : List String := [
+  "PcApi.HandleLogsStream",
+  "PcApi.handleLog",
+  "handleIncoming"]
+
 /-- src/app/process.go:Process.doConfiguredStop -/
 def app_process__Process_doConfiguredStop : List String := [
   "func (p *Process) doConfiguredStop(params types.ShutDownParams) error {",
@@ -916,6 +1075,72 @@ def app_process__Process_wontRun : List String := [
   "func (p *Process) wontRun() {",
   "p.onProcessEnd(types.ProcessStateSkipped)",
   "}"]
+
+/-- src/app/project_opts.go:ProjectOpts.WithDotEnvDisabled -/
+def app_project_opts__ProjectOpts_WithDotEnvDisabled : List String := [
+  "func (p *ProjectOpts) WithDotEnvDisabled(disabled bool) {",
+  "p.disableDotenv = disabled",
+  "}"]
+
+/-- src/app/project_opts.go:ProjectOpts.WithIsTuiOn -/
+def app_project_opts__ProjectOpts_WithIsTuiOn : List String := [
+  "func (p *ProjectOpts) WithIsTuiOn(isTuiOn bool) *ProjectOpts {",
+  "p.isTuiOn = isTuiOn",
+  "return p",
+  "}"]
+
+/-- src/app/project_opts.go:ProjectOpts.WithMainProcess -/
+def app_project_opts__ProjectOpts_WithMainProcess : List String := [
+  "func (p *ProjectOpts) WithMainProcess(mainProcess string) *ProjectOpts {",
+  "p.mainProcess = mainProcess",
+  "return p",
+  "}"]
+
+/-- src/app/project_opts.go:ProjectOpts.WithMainProcessArgs -/
+def app_project_opts__ProjectOpts_WithMainProcessArgs : List String := [
+  "func (p *ProjectOpts) WithMainProcessArgs(mainProcessArgs []string) *ProjectOpts {",
+  "p.mainProcessArgs = mainProcessArgs",
+  "return p",
+  "}"]
+
+/-- src/app/project_opts.go:ProjectOpts.WithNoDeps -/
+def app_project_opts__ProjectOpts_WithNoDeps : List String := [
+  "func (p *ProjectOpts) WithNoDeps(noDeps bool) *ProjectOpts {",
+  "p.noDeps = noDeps",
+  "return p",
+  "}"]
+
+/-- src/app/project_opts.go:ProjectOpts.WithOrderedShutDown -/
+def app_project_opts__ProjectOpts_WithOrderedShutDown : List String := [
+  "func (p *ProjectOpts) WithOrderedShutDown(isOrderedShutDown bool) *ProjectOpts {",
+  "p.isOrderedShutDown = isOrderedShutDown",
+  "return p",
+  "}"]
+
+/-- src/app/project_opts.go:ProjectOpts.WithProcessesToRun -/
+def app_project_opts__ProjectOpts_WithProcessesToRun : List String := [
+  "func (p *ProjectOpts) WithProcessesToRun(processesToRun []string) *ProjectOpts {",
+  "p.processesToRun = processesToRun",
+  "return p",
+  "}"]
+
+/-- src/app/project_opts.go:ProjectOpts.WithProject -/
+def app_project_opts__ProjectOpts_WithProject : List String := [
+  "func (p *ProjectOpts) WithProject(project *types.Project) *ProjectOpts {",
+  "p.project = project",
+  "return p",
+  "}"]
+
+/-- src/app/project_opts.go: its functions -/
+def app_project_opts__names : List String := [
+  "ProjectOpts.WithProject",
+  "ProjectOpts.WithProcessesToRun",
+  "ProjectOpts.WithNoDeps",
+  "ProjectOpts.WithMainProcess",
+  "ProjectOpts.WithMainProcessArgs",
+  "ProjectOpts.WithIsTuiOn",
+  "ProjectOpts.WithOrderedShutDown",
+  "ProjectOpts.WithDotEnvDisabled"]
 
 /-- src/app/project_runner.go:ProjectRunner.GetLogsAndSubscribe -/
 def app_project_runner__ProjectRunner_GetLogsAndSubscribe : List String := [
@@ -1737,6 +1962,234 @@ def app_project_runner__runCmd : List String := [
   "return strings.TrimSpace(string(out)), nil",
   "}"]
 
+/-- src/client/client.go:NewTcpClient -/
+def client_client__NewTcpClient : List String := [
+  "func NewTcpClient(host string, port, logLength int) *PcClient {",
+  "address := fmt.Sprintf(\"%s:%d\", host, port)",
+  "c := newClient(address, &http.Client{}, logLength)",
+  "c.logger = NewLogClient(address, \"\")",
+  "return c",
+  "}"]
+
+/-- src/client/client.go:NewUdsClient -/
+def client_client__NewUdsClient : List String := [
+  "func NewUdsClient(sockPath string, logLength int) *PcClient {",
+  "udsClient := &http.Client{Transport: &http.Transport{DisableKeepAlives: true, DialContext: func(ctx context.Context, _, _ string) (net.Conn, error) {",
+  "return (&net.Dialer{}).DialContext(ctx, \"unix\", sockPath)",
+  "}}}",
+  "c := newClient(\"unix\", udsClient, logLength)",
+  "c.logger = NewLogClient(\"unix\", sockPath)",
+  "return c",
+  "}"]
+
+/-- src/client/client.go:PcClient.ErrorForSecs -/
+def client_client__PcClient_ErrorForSecs : List String := [
+  "func (p *PcClient) ErrorForSecs() int {",
+  "p.errMtx.Lock()",
+  "defer p.errMtx.Unlock()",
+  "if !p.isErrored {",
+  "return 0",
+  "}",
+  "return int(time.Since(p.firstError).Seconds())",
+  "}"]
+
+/-- src/client/client.go:PcClient.GetHostName -/
+def client_client__PcClient_GetHostName : List String := [
+  "func (p *PcClient) GetHostName() (string, error) {",
+  "return p.getHostName()",
+  "}"]
+
+/-- src/client/client.go:PcClient.GetLexicographicProcessNames -/
+def client_client__PcClient_GetLexicographicProcessNames : List String := [
+  "func (p *PcClient) GetLexicographicProcessNames() ([]string, error) {",
+  "names, err := p.GetProcessesName()",
+  "return names, err",
+  "}"]
+
+/-- src/client/client.go:PcClient.GetLogLength -/
+def client_client__PcClient_GetLogLength : List String := [
+  "func (p *PcClient) GetLogLength() int {",
+  "return p.logLength",
+  "}"]
+
+/-- src/client/client.go:PcClient.GetLogsAndSubscribe -/
+def client_client__PcClient_GetLogsAndSubscribe : List String := [
+  "func (p *PcClient) GetLogsAndSubscribe(name string, observer pclog.LogObserver) error {",
+  "fn := func(message api.LogMessage) {",
+  "_, _ = observer.WriteString(message.Message)",
+  "}",
+  "_, err := p.logger.ReadProcessLogs(name, p.logLength, true, fn)",
+  "return err",
+  "}"]
+
+/-- src/client/client.go:PcClient.GetProcessInfo -/
+def client_client__PcClient_GetProcessInfo : List String := [
+  "func (p *PcClient) GetProcessInfo(name string) (*types.ProcessConfig, error) {",
+  "return p.getProcessInfo(name)",
+  "}"]
+
+/-- src/client/client.go:PcClient.GetProcessLog -/
+def client_client__PcClient_GetProcessLog : List String := [
+  "func (p *PcClient) GetProcessLog(name string, offsetFromEnd, limit int) ([]string, error) {",
+  "return p.getProcessLog(name, offsetFromEnd, limit)",
+  "}"]
+
+/-- src/client/client.go:PcClient.GetProcessPorts -/
+def client_client__PcClient_GetProcessPorts : List String := [
+  "func (p *PcClient) GetProcessPorts(name string) (*types.ProcessPorts, error) {",
+  "return p.getProcessPorts(name)",
+  "}"]
+
+/-- src/client/client.go:PcClient.GetProcessState -/
+def client_client__PcClient_GetProcessState : List String := [
+  "func (p *PcClient) GetProcessState(name string) (*types.ProcessState, error) {",
+  "state, err := p.getProcessState(name)",
+  "return state, err",
+  "}"]
+
+/-- src/client/client.go:PcClient.GetProcessesState -/
+def client_client__PcClient_GetProcessesState : List String := [
+  "func (p *PcClient) GetProcessesState() (*types.ProcessesState, error) {",
+  "return p.GetRemoteProcessesState()",
+  "}"]
+
+/-- src/client/client.go:PcClient.GetProjectState -/
+def client_client__PcClient_GetProjectState : List String := [
+  "func (p *PcClient) GetProjectState(withMemory bool) (*types.ProjectState, error) {",
+  "return p.getProjectState(withMemory)",
+  "}"]
+
+/-- src/client/client.go:PcClient.IsAlive -/
+def client_client__PcClient_IsAlive : List String := [
+  "func (p *PcClient) IsAlive() error {",
+  "return p.logError(p.isAlive())",
+  "}"]
+
+/-- src/client/client.go:PcClient.IsRemote -/
+def client_client__PcClient_IsRemote : List String := [
+  "func (p *PcClient) IsRemote() bool {",
+  "return true",
+  "}"]
+
+/-- src/client/client.go:PcClient.ReloadProject -/
+def client_client__PcClient_ReloadProject : List String := [
+  "func (p *PcClient) ReloadProject() (map[string]string, error) {",
+  "return p.reloadProject()",
+  "}"]
+
+/-- src/client/client.go:PcClient.RestartProcess -/
+def client_client__PcClient_RestartProcess : List String := [
+  "func (p *PcClient) RestartProcess(name string) error {",
+  "return p.restartProcess(name)",
+  "}"]
+
+/-- src/client/client.go:PcClient.ScaleProcess -/
+def client_client__PcClient_ScaleProcess : List String := [
+  "func (p *PcClient) ScaleProcess(name string, scale int) error {",
+  "return p.scaleProcess(name, scale)",
+  "}"]
+
+/-- src/client/client.go:PcClient.SetProcessPassword -/
+def client_client__PcClient_SetProcessPassword : List String := [
+  "func (p *PcClient) SetProcessPassword(_, _ string) error {",
+  "return errors.New(\"set process password not allowed for PC client\")",
+  "}"]
+
+/-- src/client/client.go:PcClient.ShutDownProject -/
+def client_client__PcClient_ShutDownProject : List String := [
+  "func (p *PcClient) ShutDownProject() error {",
+  "return p.shutDownProject()",
+  "}"]
+
+/-- src/client/client.go:PcClient.StartProcess -/
+def client_client__PcClient_StartProcess : List String := [
+  "func (p *PcClient) StartProcess(name string) error {",
+  "return p.startProcess(name)",
+  "}"]
+
+/-- src/client/client.go:PcClient.StopProcess -/
+def client_client__PcClient_StopProcess : List String := [
+  "func (p *PcClient) StopProcess(name string) error {",
+  "return p.stopProcess(name)",
+  "}"]
+
+/-- src/client/client.go:PcClient.StopProcesses -/
+def client_client__PcClient_StopProcesses : List String := [
+  "func (p *PcClient) StopProcesses(names []string) (map[string]string, error) {",
+  "return p.stopProcesses(names)",
+  "}"]
+
+/-- src/client/client.go:PcClient.UnSubscribeLogger -/
+def client_client__PcClient_UnSubscribeLogger : List String := [
+  "func (p *PcClient) UnSubscribeLogger(name string, observer pclog.LogObserver) error {",
+  "return p.logger.CloseChannel()",
+  "}"]
+
+/-- src/client/client.go:PcClient.UpdateProcess -/
+def client_client__PcClient_UpdateProcess : List String := [
+  "func (p *PcClient) UpdateProcess(updated *types.ProcessConfig) error {",
+  "return p.updateProcess(updated)",
+  "}"]
+
+/-- src/client/client.go:PcClient.UpdateProject -/
+def client_client__PcClient_UpdateProject : List String := [
+  "func (p *PcClient) UpdateProject(project *types.Project) (map[string]string, error) {",
+  "return p.updateProject(project)",
+  "}"]
+
+/-- src/client/client.go:PcClient.logError -/
+def client_client__PcClient_logError : List String := [
+  "func (p *PcClient) logError(err error) error {",
+  "p.errMtx.Lock()",
+  "defer p.errMtx.Unlock()",
+  "if err == nil {",
+  "p.isErrored = false",
+  "return nil",
+  "}",
+  "if !p.isErrored {",
+  "p.isErrored = true",
+  "p.firstError = time.Now()",
+  "}",
+  "return err",
+  "}"]
+
+/-- src/client/client.go: its functions -/
+def client_client__names : List String := [
+  "NewUdsClient",
+  "NewTcpClient",
+  "newClient",
+  "PcClient.ShutDownProject",
+  "PcClient.IsRemote",
+  "PcClient.GetHostName",
+  "PcClient.GetLogLength",
+  "PcClient.GetLogsAndSubscribe",
+  "PcClient.UnSubscribeLogger",
+  "PcClient.GetProcessLog",
+  "PcClient.GetLexicographicProcessNames",
+  "PcClient.GetProcessInfo",
+  "PcClient.GetProcessPorts",
+  "PcClient.GetProcessState",
+  "PcClient.GetProcessesState",
+  "PcClient.StopProcess",
+  "PcClient.StopProcesses",
+  "PcClient.StartProcess",
+  "PcClient.RestartProcess",
+  "PcClient.ScaleProcess",
+  "PcClient.IsAlive",
+  "PcClient.ErrorForSecs",
+  "PcClient.logError",
+  "PcClient.GetProjectState",
+  "PcClient.SetProcessPassword",
+  "PcClient.UpdateProject",
+  "PcClient.UpdateProcess",
+  "PcClient.ReloadProject"]
+
+/-- src/client/client.go:newClient -/
+def client_client__newClient : List String := [
+  "func newClient(address string, client *http.Client, logLength int) *PcClient {",
+  "return &PcClient{address: address, logLength: logLength, firstError: zeroTime, isErrored: false, client: client}",
+  "}"]
+
 /-- src/client/common.go: its functions -/
 def client_common__names : List String := []
 
@@ -2232,6 +2685,494 @@ def client_stop__names : List String := [
   "PcClient.stopProcess",
   "PcClient.stopProcesses"]
 
+/-- src/cmd/project_runner.go:getColumnId -/
+def cmd_project_runner__getColumnId : List String := [
+  "func getColumnId(columnName string) tui.ColumnID {",
+  "col, err := tui.StringToColumnID(columnName)",
+  "if err != nil {",
+  "col = tui.ProcessStateName",
+  "}",
+  "return col",
+  "}"]
+
+/-- src/cmd/project_runner.go:getProjectRunner -/
+def cmd_project_runner__getProjectRunner : List String := [
+  "func getProjectRunner(process []string, noDeps bool, mainProcess string, mainProcessArgs []string) *app.ProjectRunner {",
+  "opts.DisableDotenv(*pcFlags.DisableDotEnv)",
+  "opts.WithTuiDisabled(!*pcFlags.IsTuiEnabled)",
+  "project, err := loader.Load(opts)",
+  "if err != nil {",
+  "}",
+  "*pcFlags.IsTuiEnabled = !project.IsTuiDisabled",
+  "prjOpts := app.ProjectOpts{}",
+  "runner, err := app.NewProjectRunner(prjOpts.WithIsTuiOn(*pcFlags.IsTuiEnabled).WithMainProcess(mainProcess).WithMainProcessArgs(mainProcessArgs).WithProject(project).WithProcessesToRun(process).WithOrderedShutDown(*pcFlags.IsOrderedShutDown).WithNoDeps(noDeps))",
+  "if err != nil {",
+  "}",
+  "return runner",
+  "}"]
+
+/-- src/cmd/project_runner.go: its functions -/
+def cmd_project_runner__names : List String := [
+  "getProjectRunner",
+  "runProject",
+  "setSignal",
+  "runHeadless",
+  "runTui",
+  "startTui",
+  "getColumnId",
+  "ternary",
+  "quiet"]
+
+/-- src/cmd/project_runner.go:quiet -/
+def cmd_project_runner__quiet : List String := [
+  "func quiet() func() {",
+  "null, _ := os.Open(os.DevNull)",
+  "sout := os.Stdout",
+  "serr := os.Stderr",
+  "os.Stdout = null",
+  "os.Stderr = null",
+  "return func() {",
+  "defer null.Close()",
+  "os.Stdout = sout",
+  "os.Stderr = serr",
+  "}",
+  "}"]
+
+/-- src/cmd/project_runner.go:runHeadless -/
+def cmd_project_runner__runHeadless : List String := [
+  "func runHeadless(project *app.ProjectRunner) error {",
+  "setSignal(func() {",
+  "_ = project.ShutDownProject()",
+  "})",
+  "return project.Run()",
+  "}"]
+
+/-- src/cmd/project_runner.go:runProject -/
+def cmd_project_runner__runProject : List String := [
+  "func runProject(runner *app.ProjectRunner) error {",
+  "var err error",
+  "if *pcFlags.IsTuiEnabled {",
+  "err = runTui(runner)",
+  "} else {",
+  "err = runHeadless(runner)",
+  "}",
+  "if *pcFlags.KeepProjectOn {",
+  "runner.WaitForProjectShutdown()",
+  "}",
+  "os.Remove(*pcFlags.UnixSocketPath)",
+  "return err",
+  "}"]
+
+/-- src/cmd/project_runner.go:runTui -/
+def cmd_project_runner__runTui : List String := [
+  "func runTui(project *app.ProjectRunner) error {",
+  "startTui(project, true)",
+  "err := project.Run()",
+  "if !*pcFlags.KeepProjectOn && !*pcFlags.KeepTuiOn {",
+  "tui.Stop()",
+  "} else {",
+  "tui.Wait()",
+  "}",
+  "return err",
+  "}"]
+
+/-- src/cmd/project_runner.go:setSignal -/
+def cmd_project_runner__setSignal : List String := [
+  "func setSignal(signalHandler func()) {",
+  "cancelChan := make(chan os.Signal, 1)",
+  "signal.Notify(cancelChan, syscall.SIGTERM, os.Interrupt, syscall.SIGHUP)",
+  "go func() {",
+  "sig := <-cancelChan",
+  "signalHandler()",
+  "}()",
+  "}"]
+
+/-- src/cmd/project_runner.go:startTui -/
+def cmd_project_runner__startTui : List String := [
+  "func startTui(runner app.IProject, isAsync bool) {",
+  "if !*pcFlags.IsReadOnlyMode {",
+  "config.CreateProcCompHome()",
+  "}",
+  "if *pcFlags.DetachOnSuccess {",
+  "states, err := runner.GetProcessesState()",
+  "if err != nil {",
+  "} else if states.IsReady() {",
+  "fmt.Println(tui.DetachOnSuccessMessage)",
+  "app.PrintStatesAsTable(states.States)",
+  "return",
+  "}",
+  "}",
+  "settings := config.NewSettings().Load()",
+  "tuiOptions := []tui.Option{tui.WithRefreshRate(*pcFlags.RefreshRate), tui.WithReadOnlyMode(*pcFlags.IsReadOnlyMode), tui.WithFullScreen(*pcFlags.IsTuiFullScreen), tui.WithDisabledHidden(*pcFlags.HideDisabled), tui.WithDisabledExitConfirm(settings.DisableExitConfirmation), tui.WithDetachOnSuccess(*pcFlags.DetachOnSuccess), tui.LoadExtraShortCutsPaths(*pcFlags.ShortcutPaths)}",
+  "tuiOptions = append(tuiOptions, ternary(pcFlags.PcThemeChanged, tui.WithTheme(*pcFlags.PcTheme), tui.WithTheme(settings.Theme)))",
+  "tuiOptions = append(tuiOptions, ternary(pcFlags.SortColumnChanged, tui.WithStateSorter(getColumnId(*pcFlags.SortColumn), !*pcFlags.IsReverseSort), tui.WithStateSorter(getColumnId(settings.Sort.By), !settings.Sort.IsReversed)))",
+  "if isAsync {",
+  "tui.RunTUIAsync(runner, tuiOptions...)",
+  "} else {",
+  "tui.RunTUI(runner, tuiOptions...)",
+  "}",
+  "}"]
+
+/-- src/cmd/project_runner.go:ternary -/
+def cmd_project_runner__ternary : List String := [
+  "func ternary[T any](cond bool, a, b T) T {",
+  "if cond {",
+  "return a",
+  "}",
+  "return b",
+  "}"]
+
+/-- src/cmd/project_runner_unix.go: its functions -/
+def cmd_project_runner_unix__names : List String := [
+  "runInDetachedMode"]
+
+/-- src/cmd/project_runner_unix.go:runInDetachedMode -/
+def cmd_project_runner_unix__runInDetachedMode : List String := [
+  "func runInDetachedMode() {",
+  "fmt.Println(\"Starting Process Compose in detached mode. Use 'process-compose attach' to connect to it or 'process-compose down' to stop it\")",
+  "for i, arg := range os.Args {",
+  "if arg == \"-D\" || arg == \"--detached\" || arg == \"--detached-with-tui\" {",
+  "os.Args = append(os.Args[:i], os.Args[i+1:]...)",
+  "break",
+  "}",
+  "}",
+  "os.Args = append(os.Args, \"-t=false\")",
+  "cmd := exec.Command(os.Args[0], os.Args[1:]...)",
+  "cmd.SysProcAttr = &syscall.SysProcAttr{Setsid: true}",
+  "cmd.Stdin = nil",
+  "cmd.Stdout, _ = os.OpenFile(\"/dev/null\", os.O_RDWR, 0)",
+  "cmd.Stderr, _ = os.OpenFile(\"/dev/null\", os.O_RDWR, 0)",
+  "if err := cmd.Start(); err != nil {",
+  "panic(err)",
+  "}",
+  "if *pcFlags.IsDetachedWithTui {",
+  "startTui(getClient(), false)",
+  "}",
+  "os.Exit(0)",
+  "}"]
+
+/-- src/command/command.go:BuildCommand -/
+def command_command__BuildCommand : List String := [
+  "func BuildCommand(cmd string, args []string) *CmdWrapper {",
+  "return &CmdWrapper{cmd: exec.Command(cmd, args...)}",
+  "}"]
+
+/-- src/command/command.go:BuildCommandContext -/
+def command_command__BuildCommandContext : List String := [
+  "func BuildCommandContext(ctx context.Context, shellCmd string) *CmdWrapper {",
+  "return &CmdWrapper{cmd: exec.CommandContext(ctx, getRunnerShell(), getRunnerArg(), shellCmd)}",
+  "}"]
+
+/-- src/command/command.go:BuildCommandShellArgContext -/
+def command_command__BuildCommandShellArgContext : List String := [
+  "func BuildCommandShellArgContext(ctx context.Context, shell ShellConfig, cmd string) *CmdWrapper {",
+  "return &CmdWrapper{cmd: exec.CommandContext(ctx, shell.ShellCommand, shell.ShellArgument, cmd)}",
+  "}"]
+
+/-- src/command/command.go:BuildPtyCommand -/
+def command_command__BuildPtyCommand : List String := [
+  "func BuildPtyCommand(cmd string, args []string) *CmdWrapperPty {",
+  "return &CmdWrapperPty{CmdWrapper: BuildCommand(cmd, args)}",
+  "}"]
+
+/-- src/command/command.go:DefaultShellConfig -/
+def command_command__DefaultShellConfig : List String := [
+  "func DefaultShellConfig() *ShellConfig {",
+  "return &ShellConfig{ShellCommand: getRunnerShell(), ShellArgument: getRunnerArg(), ElevatedShellCmd: getElevatedRunnerCmd(), ElevatedShellArg: getElevatedRunnerArg()}",
+  "}"]
+
+/-- src/command/command.go:ValidateShellConfig -/
+def command_command__ValidateShellConfig : List String := [
+  "func ValidateShellConfig(shell ShellConfig) {",
+  "_, err := exec.LookPath(shell.ShellCommand)",
+  "if err != nil {",
+  "}",
+  "}"]
+
+/-- src/command/command.go:getElevatedRunnerArg -/
+def command_command__getElevatedRunnerArg : List String := [
+  "func getElevatedRunnerArg() string {",
+  "arg := \"-S\"",
+  "if runtime.GOOS == \"windows\" {",
+  "arg = \"/user:Administrator\"",
+  "}",
+  "return arg",
+  "}"]
+
+/-- src/command/command.go:getElevatedRunnerCmd -/
+def command_command__getElevatedRunnerCmd : List String := [
+  "func getElevatedRunnerCmd() string {",
+  "shell := \"sudo\"",
+  "if runtime.GOOS == \"windows\" {",
+  "shell = \"runas\"",
+  "}",
+  "return shell",
+  "}"]
+
+/-- src/command/command.go:getRunnerArg -/
+def command_command__getRunnerArg : List String := [
+  "func getRunnerArg() string {",
+  "arg := \"-c\"",
+  "if runtime.GOOS == \"windows\" {",
+  "arg = \"/C\"",
+  "}",
+  "return arg",
+  "}"]
+
+/-- src/command/command.go:getRunnerShell -/
+def command_command__getRunnerShell : List String := [
+  "func getRunnerShell() string {",
+  "shell, ok := os.LookupEnv(\"COMPOSE_SHELL\")",
+  "if !ok {",
+  "if runtime.GOOS == \"windows\" {",
+  "shell = \"cmd\"",
+  "} else {",
+  "shell = \"bash\"",
+  "}",
+  "}",
+  "return shell",
+  "}"]
+
+/-- src/command/command.go: its functions -/
+def command_command__names : List String := [
+  "BuildCommand",
+  "BuildPtyCommand",
+  "BuildCommandContext",
+  "BuildCommandShellArgContext",
+  "getRunnerShell",
+  "getRunnerArg",
+  "getElevatedRunnerCmd",
+  "getElevatedRunnerArg",
+  "DefaultShellConfig",
+  "ValidateShellConfig"]
+
+/-- src/command/command_wrapper.go:CmdWrapper.AttachIo -/
+def command_command_wrapper__CmdWrapper_AttachIo : List String := [
+  "func (c *CmdWrapper) AttachIo() {",
+  "c.cmd.Stdin = os.Stdin",
+  "c.cmd.Stdout = os.Stdout",
+  "c.cmd.Stderr = os.Stderr",
+  "}"]
+
+/-- src/command/command_wrapper.go:CmdWrapper.ExitCode -/
+def command_command_wrapper__CmdWrapper_ExitCode : List String := [
+  "func (c *CmdWrapper) ExitCode() int {",
+  "return c.cmd.ProcessState.ExitCode()",
+  "}"]
+
+/-- src/command/command_wrapper.go:CmdWrapper.Output -/
+def command_command_wrapper__CmdWrapper_Output : List String := [
+  "func (c *CmdWrapper) Output() ([]byte, error) {",
+  "return c.cmd.Output()",
+  "}"]
+
+/-- src/command/command_wrapper.go:CmdWrapper.Pid -/
+def command_command_wrapper__CmdWrapper_Pid : List String := [
+  "func (c *CmdWrapper) Pid() int {",
+  "return c.cmd.Process.Pid",
+  "}"]
+
+/-- src/command/command_wrapper.go:CmdWrapper.Run -/
+def command_command_wrapper__CmdWrapper_Run : List String := [
+  "func (c *CmdWrapper) Run() error {",
+  "return c.cmd.Run()",
+  "}"]
+
+/-- src/command/command_wrapper.go:CmdWrapper.SetDir -/
+def command_command_wrapper__CmdWrapper_SetDir : List String := [
+  "func (c *CmdWrapper) SetDir(dir string) {",
+  "c.cmd.Dir = dir",
+  "}"]
+
+/-- src/command/command_wrapper.go:CmdWrapper.SetEnv -/
+def command_command_wrapper__CmdWrapper_SetEnv : List String := [
+  "func (c *CmdWrapper) SetEnv(env []string) {",
+  "c.cmd.Env = env",
+  "}"]
+
+/-- src/command/command_wrapper.go:CmdWrapper.Start -/
+def command_command_wrapper__CmdWrapper_Start : List String := [
+  "func (c *CmdWrapper) Start() error {",
+  "return c.cmd.Start()",
+  "}"]
+
+/-- src/command/command_wrapper.go:CmdWrapper.StderrPipe -/
+def command_command_wrapper__CmdWrapper_StderrPipe : List String := [
+  "func (c *CmdWrapper) StderrPipe() (io.ReadCloser, error) {",
+  "return c.cmd.StderrPipe()",
+  "}"]
+
+/-- src/command/command_wrapper.go:CmdWrapper.StdinPipe -/
+def command_command_wrapper__CmdWrapper_StdinPipe : List String := [
+  "func (c *CmdWrapper) StdinPipe() (io.WriteCloser, error) {",
+  "return c.cmd.StdinPipe()",
+  "}"]
+
+/-- src/command/command_wrapper.go:CmdWrapper.StdoutPipe -/
+def command_command_wrapper__CmdWrapper_StdoutPipe : List String := [
+  "func (c *CmdWrapper) StdoutPipe() (io.ReadCloser, error) {",
+  "return c.cmd.StdoutPipe()",
+  "}"]
+
+/-- src/command/command_wrapper.go:CmdWrapper.Wait -/
+def command_command_wrapper__CmdWrapper_Wait : List String := [
+  "func (c *CmdWrapper) Wait() error {",
+  "return c.cmd.Wait()",
+  "}"]
+
+/-- src/command/command_wrapper.go: its functions -/
+def command_command_wrapper__names : List String := [
+  "CmdWrapper.Start",
+  "CmdWrapper.Run",
+  "CmdWrapper.Wait",
+  "CmdWrapper.ExitCode",
+  "CmdWrapper.Pid",
+  "CmdWrapper.StdoutPipe",
+  "CmdWrapper.StderrPipe",
+  "CmdWrapper.StdinPipe",
+  "CmdWrapper.AttachIo",
+  "CmdWrapper.SetEnv",
+  "CmdWrapper.SetDir",
+  "CmdWrapper.Output"]
+
+/-- src/command/command_wrapper_pty.go:CmdWrapperPty.SetCmdArgs -/
+def command_command_wrapper_pty__CmdWrapperPty_SetCmdArgs : List String := [
+  "func (c *CmdWrapperPty) SetCmdArgs() {",
+  "}"]
+
+/-- src/command/command_wrapper_pty.go:CmdWrapperPty.Start -/
+def command_command_wrapper_pty__CmdWrapperPty_Start : List String := [
+  "func (c *CmdWrapperPty) Start() (err error) {",
+  "if c.ptmx != nil {",
+  "return nil",
+  "}",
+  "c.ptmx, err = pty.Start(c.cmd)",
+  "if err != nil {",
+  "return fmt.Errorf(\"error starting PTY command: %w\", err)",
+  "}",
+  "_, err = term.MakeRaw(int(c.ptmx.Fd()))",
+  "if err != nil {",
+  "return fmt.Errorf(\"error putting PTY into raw mode: %w\", err)",
+  "}",
+  "return err",
+  "}"]
+
+/-- src/command/command_wrapper_pty.go:CmdWrapperPty.StderrPipe -/
+def command_command_wrapper_pty__CmdWrapperPty_StderrPipe : List String := [
+  "func (c *CmdWrapperPty) StderrPipe() (io.ReadCloser, error) {",
+  "return nil, errors.New(\"not supported in PTY\")",
+  "}"]
+
+/-- src/command/command_wrapper_pty.go:CmdWrapperPty.StdinPipe -/
+def command_command_wrapper_pty__CmdWrapperPty_StdinPipe : List String := [
+  "func (c *CmdWrapperPty) StdinPipe() (io.WriteCloser, error) {",
+  "if c.ptmx == nil {",
+  "err := c.Start()",
+  "if err != nil {",
+  "return nil, err",
+  "}",
+  "}",
+  "return c.ptmx, nil",
+  "}"]
+
+/-- src/command/command_wrapper_pty.go:CmdWrapperPty.StdoutPipe -/
+def command_command_wrapper_pty__CmdWrapperPty_StdoutPipe : List String := [
+  "func (c *CmdWrapperPty) StdoutPipe() (io.ReadCloser, error) {",
+  "if c.ptmx == nil {",
+  "err := c.Start()",
+  "if err != nil {",
+  "return nil, err",
+  "}",
+  "}",
+  "return c.ptmx, nil",
+  "}"]
+
+/-- src/command/command_wrapper_pty.go:CmdWrapperPty.Wait -/
+def command_command_wrapper_pty__CmdWrapperPty_Wait : List String := [
+  "func (c *CmdWrapperPty) Wait() error {",
+  "defer c.ptmx.Close()",
+  "return c.cmd.Wait()",
+  "}"]
+
+/-- src/command/command_wrapper_pty.go: its functions -/
+def command_command_wrapper_pty__names : List String := [
+  "CmdWrapperPty.Start",
+  "CmdWrapperPty.Wait",
+  "CmdWrapperPty.StdoutPipe",
+  "CmdWrapperPty.StderrPipe",
+  "CmdWrapperPty.StdinPipe",
+  "CmdWrapperPty.SetCmdArgs"]
+
+/-- src/command/stopper_unix.go:CmdWrapper.SetCmdArgs -/
+def command_stopper_unix__CmdWrapper_SetCmdArgs : List String := [
+  "func (c *CmdWrapper) SetCmdArgs() {",
+  "c.cmd.SysProcAttr = &syscall.SysProcAttr{Setpgid: true}",
+  "}"]
+
+/-- src/command/stopper_unix.go:CmdWrapper.Stop -/
+def command_stopper_unix__CmdWrapper_Stop : List String := [
+  "func (c *CmdWrapper) Stop(sig int, parentOnly bool) error {",
+  "if c.cmd == nil {",
+  "return nil",
+  "}",
+  "if sig < min_sig || sig > max_sig {",
+  "sig = int(syscall.SIGTERM)",
+  "}",
+  "if parentOnly {",
+  "return c.cmd.Process.Signal(syscall.Signal(sig))",
+  "}",
+  "pgid, err := syscall.Getpgid(c.Pid())",
+  "if err == nil {",
+  "return syscall.Kill(-pgid, syscall.Signal(sig))",
+  "}",
+  "return err",
+  "}"]
+
+/-- src/command/stopper_unix.go: its functions -/
+def command_stopper_unix__names : List String := [
+  "CmdWrapper.Stop",
+  "CmdWrapper.SetCmdArgs"]
+
+/-- src/health/exec_checker.go:execChecker.Status -/
+def health_exec_checker__execChecker_Status : List String := [
+  "func (c *execChecker) Status() (interface{}, error) {",
+  "ctx, cancel := context.WithTimeout(context.Background(), time.Duration(c.timeout)*time.Second)",
+  "defer cancel()",
+  "cmd := command.BuildCommandContext(ctx, c.command)",
+  "cmd.SetDir(c.workingDir)",
+  "if err := cmd.Run(); err != nil {",
+  "return nil, err",
+  "}",
+  "return map[string]int{\"exit_code\": cmd.ExitCode()}, nil",
+  "}"]
+
+/-- src/health/exec_checker.go: its functions -/
+def health_exec_checker__names : List String := [
+  "execChecker.Status"]
+
+/-- src/health/health_checks.go:New -/
+def health_health_checks__New : List String := [
+  "func New(name string, probe Probe, onCheckEnd func(bool, bool, string)) (*Prober, error) {",
+  "probe.ValidateAndSetDefaults()",
+  "p := &Prober{probe: probe, name: name, onCheckEndFunc: onCheckEnd, hc: health.New()}",
+  "p.hc.DisableLogging()",
+  "if probe.Exec != nil {",
+  "err := p.addProber(p.getExecChecker)",
+  "if err != nil {",
+  "return nil, err",
+  "}",
+  "return p, err",
+  "}",
+  "if probe.HttpGet != nil {",
+  "err := p.addProber(p.getHttpChecker)",
+  "if err != nil {",
+  "return nil, err",
+  "}",
+  "return p, err",
+  "}",
+  "return nil, fmt.Errorf(\"no probes [http_get, exec] configured for %s\", name)",
+  "}"]
+
 /-- src/health/health_checks.go:Prober.Start -/
 def health_health_checks__Prober_Start : List String := [
   "func (p *Prober) Start() {",
@@ -2257,6 +3198,36 @@ def health_health_checks__Prober_Stop : List String := [
   "}",
   "}"]
 
+/-- src/health/health_checks.go:Prober.addProber -/
+def health_health_checks__Prober_addProber : List String := [
+  "func (p *Prober) addProber(factory func() (health.ICheckable, error)) error {",
+  "checker, err := factory()",
+  "if err != nil {",
+  "return err",
+  "}",
+  "return p.hc.AddCheck(&health.Config{Name: p.name, Checker: checker, Interval: time.Duration(p.probe.PeriodSeconds) * time.Second, Fatal: false, OnComplete: p.healthCheckCompleted})",
+  "}"]
+
+/-- src/health/health_checks.go:Prober.getExecChecker -/
+def health_health_checks__Prober_getExecChecker : List String := [
+  "func (p *Prober) getExecChecker() (health.ICheckable, error) {",
+  "return &execChecker{command: p.probe.Exec.Command, timeout: p.probe.TimeoutSeconds, workingDir: p.probe.Exec.WorkingDir}, nil",
+  "}"]
+
+/-- src/health/health_checks.go:Prober.getHttpChecker -/
+def health_health_checks__Prober_getHttpChecker : List String := [
+  "func (p *Prober) getHttpChecker() (health.ICheckable, error) {",
+  "url, err := p.probe.HttpGet.getUrl()",
+  "if err != nil {",
+  "return nil, err",
+  "}",
+  "checker, err := checkers.NewHTTP(&checkers.HTTPConfig{URL: url, Timeout: time.Duration(p.probe.TimeoutSeconds) * time.Second})",
+  "if err != nil {",
+  "return nil, err",
+  "}",
+  "return checker, nil",
+  "}"]
+
 /-- src/health/health_checks.go:Prober.healthCheckCompleted -/
 def health_health_checks__Prober_healthCheckCompleted : List String := [
   "func (p *Prober) healthCheckCompleted(state *health.State) {",
@@ -2272,6 +3243,29 @@ def health_health_checks__Prober_healthCheckCompleted : List String := [
   "return",
   "}",
   "p.onCheckEndFunc(ok, fatal, state.Err)",
+  "}"]
+
+/-- src/health/health_checks.go: its functions -/
+def health_health_checks__names : List String := [
+  "New",
+  "Prober.Start",
+  "Prober.Stop",
+  "Prober.healthCheckCompleted",
+  "Prober.addProber",
+  "Prober.getHttpChecker",
+  "Prober.getExecChecker"]
+
+/-- src/health/probe.go:HttpProbe.getUrl -/
+def health_probe__HttpProbe_getUrl : List String := [
+  "func (h *HttpProbe) getUrl() (*url.URL, error) {",
+  "urlStr := \"\"",
+  "if h.NumPort != 0 {",
+  "urlStr = fmt.Sprintf(\"%s://%s:%d%s\", h.Scheme, h.Host, h.NumPort, h.Path)",
+  "}",
+  "if h.NumPort == 0 {",
+  "urlStr = fmt.Sprintf(\"%s://%s%s\", h.Scheme, h.Host, h.Path)",
+  "}",
+  "return url.Parse(urlStr)",
   "}"]
 
 /-- src/health/probe.go:HttpProbe.validateAndSetHttpDefaults -/
@@ -2318,6 +3312,12 @@ def health_probe__Probe_ValidateAndSetDefaults : List String := [
   "p.HttpGet.validateAndSetHttpDefaults()",
   "}",
   "}"]
+
+/-- src/health/probe.go: its functions -/
+def health_probe__names : List String := [
+  "HttpProbe.getUrl",
+  "Probe.ValidateAndSetDefaults",
+  "HttpProbe.validateAndSetHttpDefaults"]
 
 /-- src/loader/loader.go:Load -/
 def loader_loader__Load : List String := [
@@ -2435,6 +3435,49 @@ def loader_loader__loadProjectFromFile : List String := [
   "}",
   "return project, nil",
   "}"]
+
+/-- src/loader/loader_options.go:LoaderOptions.AddAdmitter -/
+def loader_loader_options__LoaderOptions_AddAdmitter : List String := [
+  "func (o *LoaderOptions) AddAdmitter(adm ...admitter.Admitter) {",
+  "o.admitters = append(o.admitters, adm...)",
+  "}"]
+
+/-- src/loader/loader_options.go:LoaderOptions.DisableDotenv -/
+def loader_loader_options__LoaderOptions_DisableDotenv : List String := [
+  "func (o *LoaderOptions) DisableDotenv(disabled bool) {",
+  "o.disableDotenv = disabled",
+  "}"]
+
+/-- src/loader/loader_options.go:LoaderOptions.WithTuiDisabled -/
+def loader_loader_options__LoaderOptions_WithTuiDisabled : List String := [
+  "func (o *LoaderOptions) WithTuiDisabled(disabled bool) {",
+  "o.isTuiDisabled = disabled",
+  "}"]
+
+/-- src/loader/loader_options.go:LoaderOptions.getWorkingDir -/
+def loader_loader_options__LoaderOptions_getWorkingDir : List String := [
+  "func (o *LoaderOptions) getWorkingDir() (string, error) {",
+  "if o.workingDir != \"\" {",
+  "return o.workingDir, nil",
+  "}",
+  "for _, path := range o.FileNames {",
+  "if path != \"-\" {",
+  "absPath, err := filepath.Abs(path)",
+  "if err != nil {",
+  "return \"\", err",
+  "}",
+  "return filepath.Dir(absPath), nil",
+  "}",
+  "}",
+  "return os.Getwd()",
+  "}"]
+
+/-- src/loader/loader_options.go: its functions -/
+def loader_loader_options__names : List String := [
+  "LoaderOptions.AddAdmitter",
+  "LoaderOptions.getWorkingDir",
+  "LoaderOptions.DisableDotenv",
+  "LoaderOptions.WithTuiDisabled"]
 
 /-- src/loader/merger.go:merge -/
 def loader_merger__merge : List String := [
@@ -2766,6 +3809,159 @@ def loader_validators__validateNoCircularDependencies : List String := [
   "return nil",
   "}"]
 
+/-- src/pclog/logger_facade.go:NewLogger -/
+def pclog_logger_facade__NewLogger : List String := [
+  "func NewLogger() *PCLog {",
+  "l := &PCLog{logEventChan: make(chan logEvent, 100)}",
+  "return l",
+  "}"]
+
+/-- src/pclog/logger_facade.go:PCLog.Close -/
+def pclog_logger_facade__PCLog_Close : List String := [
+  "func (l *PCLog) Close() {",
+  "if l.file == nil {",
+  "return",
+  "}",
+  "l.closer.Do(func() {",
+  "l.isClosed.Store(true)",
+  "close(l.logEventChan)",
+  "l.wg.Wait()",
+  "l.writer.Flush()",
+  "l.file.Close()",
+  "})",
+  "}"]
+
+/-- src/pclog/logger_facade.go:PCLog.Error -/
+def pclog_logger_facade__PCLog_Error : List String := [
+  "func (l *PCLog) Error(message string, process string, replica int) {",
+  "if l.isClosed.Load() {",
+  "return",
+  "}",
+  "l.logEventChan <- logEvent{message: message, process: process, replica: replica, isErr: true}",
+  "}"]
+
+/-- src/pclog/logger_facade.go:PCLog.Info -/
+def pclog_logger_facade__PCLog_Info : List String := [
+  "func (l *PCLog) Info(message string, process string, replica int) {",
+  "if l.isClosed.Load() {",
+  "return",
+  "}",
+  "l.logEventChan <- logEvent{message: message, process: process, replica: replica, isErr: false}",
+  "}"]
+
+/-- src/pclog/logger_facade.go:PCLog.Open -/
+def pclog_logger_facade__PCLog_Open : List String := [
+  "func (l *PCLog) Open(filePath string, config *types.LoggerConfig) {",
+  "if l.file != nil {",
+  "return",
+  "}",
+  "if filePath == \"\" {",
+  "return",
+  "}",
+  "f, err := l.getWriter(filePath, config)",
+  "if err != nil {",
+  "l.isClosed.Store(true)",
+  "}",
+  "l.writer = bufio.NewWriter(f)",
+  "l.file = f",
+  "if config == nil || !config.DisableJSON {",
+  "l.logger = zerolog.New(l.writer)",
+  "} else {",
+  "out := zerolog.NewConsoleWriter(func(w *zerolog.ConsoleWriter) {",
+  "w.Out = l.writer",
+  "if len(config.FieldsOrder) > 0 {",
+  "w.PartsOrder = config.FieldsOrder",
+  "}",
+  "if len(config.TimestampFormat) > 0 {",
+  "w.TimeFormat = config.TimestampFormat",
+  "}",
+  "w.NoColor = config.NoColor",
+  "})",
+  "l.logger = zerolog.New(out)",
+  "}",
+  "if config != nil {",
+  "l.noMetaData = config.NoMetadata",
+  "l.flushEachLine = config.FlushEachLine",
+  "if config.AddTimestamp {",
+  "l.logger = l.logger.With().Timestamp().Logger()",
+  "if len(config.TimestampFormat) > 0 {",
+  "zerolog.TimeFieldFormat = config.TimestampFormat",
+  "}",
+  "}",
+  "}",
+  "l.wg.Add(1)",
+  "go l.runCollector()",
+  "}"]
+
+/-- src/pclog/logger_facade.go:PCLog.getFileWriter -/
+def pclog_logger_facade__PCLog_getFileWriter : List String := [
+  "func (l *PCLog) getFileWriter(filePath string, config *types.LoggerConfig) (io.WriteCloser, error) {",
+  "dirName := path.Dir(filePath)",
+  "if err := os.MkdirAll(dirName, 0755); err != nil && !os.IsExist(err) {",
+  "l.isClosed.Store(true)",
+  "return nil, err",
+  "}",
+  "flags := os.O_WRONLY | os.O_CREATE | os.O_APPEND | os.O_TRUNC",
+  "f, err := os.OpenFile(filePath, flags, 0600)",
+  "if err != nil {",
+  "l.isClosed.Store(true)",
+  "return nil, err",
+  "}",
+  "return f, nil",
+  "}"]
+
+/-- src/pclog/logger_facade.go:PCLog.getRollingWriter -/
+def pclog_logger_facade__PCLog_getRollingWriter : List String := [
+  "func (l *PCLog) getRollingWriter(filePath string, rotation *types.LogRotationConfig) (io.WriteCloser, error) {",
+  "return &lumberjack.Logger{Filename: filePath, MaxBackups: rotation.MaxBackups, MaxSize: rotation.MaxSize, MaxAge: rotation.MaxAge, LocalTime: true, Compress: rotation.Compress}, nil",
+  "}"]
+
+/-- src/pclog/logger_facade.go:PCLog.getWriter -/
+def pclog_logger_facade__PCLog_getWriter : List String := [
+  "func (l *PCLog) getWriter(filePath string, config *types.LoggerConfig) (io.WriteCloser, error) {",
+  "isRotationEnabled := config != nil && config.Rotation != nil",
+  "if !isRotationEnabled {",
+  "return l.getFileWriter(filePath, config)",
+  "} else {",
+  "return l.getRollingWriter(filePath, config.Rotation)",
+  "}",
+  "}"]
+
+/-- src/pclog/logger_facade.go:PCLog.runCollector -/
+def pclog_logger_facade__PCLog_runCollector : List String := [
+  "func (l *PCLog) runCollector() {",
+  "for {",
+  "event, open := <-l.logEventChan",
+  "if !open {",
+  "break",
+  "}",
+  "level := l.logger.Info()",
+  "if event.isErr {",
+  "level = l.logger.Error()",
+  "}",
+  "if !l.noMetaData {",
+  "level = level.Str(\"process\", event.process).Int(\"replica\", event.replica)",
+  "}",
+  "level.Msg(event.message)",
+  "if l.flushEachLine {",
+  "l.writer.Flush()",
+  "}",
+  "}",
+  "l.wg.Done()",
+  "}"]
+
+/-- src/pclog/logger_facade.go: its functions -/
+def pclog_logger_facade__names : List String := [
+  "NewLogger",
+  "PCLog.Open",
+  "PCLog.getWriter",
+  "PCLog.getFileWriter",
+  "PCLog.getRollingWriter",
+  "PCLog.Info",
+  "PCLog.Error",
+  "PCLog.Close",
+  "PCLog.runCollector"]
+
 /-- src/pclog/process_log_buffer.go:NewLogBuffer -/
 def pclog_process_log_buffer__NewLogBuffer : List String := [
   "func NewLogBuffer(size int) *ProcessLogBuffer {",
@@ -2972,6 +4168,163 @@ def templater_templater__names : List String := [
   "Templater.render",
   "Templater.GetError"]
 
+/-- src/types/process.go:NewProcessState -/
+def types_process__NewProcessState : List String := [
+  "func NewProcessState(proc *ProcessConfig) *ProcessState {",
+  "state := &ProcessState{Name: proc.ReplicaName, Namespace: proc.Namespace, Status: ProcessStatePending, SystemTime: PlaceHolderValue, Age: time.Duration(0), IsRunning: false, Health: ProcessHealthUnknown, HasHealthProbe: proc.ReadinessProbe != nil || proc.LivenessProbe != nil, Restarts: 0, ExitCode: 0, Mem: 0, CPU: 0, Pid: 0}",
+  "if proc.Disabled {",
+  "state.Status = ProcessStateDisabled",
+  "} else if proc.IsForeground {",
+  "state.Status = ProcessStateForeground",
+  "}",
+  "return state",
+  "}"]
+
+/-- src/types/process.go:ProcessConfig.AssignProcessExecutableAndArgs -/
+def types_process__ProcessConfig_AssignProcessExecutableAndArgs : List String := [
+  "func (p *ProcessConfig) AssignProcessExecutableAndArgs(shellConf *command.ShellConfig, elevatedShellArg string) {",
+  "if p.Command != \"\" || len(p.Entrypoint) == 0 {",
+  "if len(p.Entrypoint) > 0 {",
+  "message := fmt.Sprintf(\"'command' and 'entrypoint' are set! Using command (process: %s)\", p.Name)",
+  "_, _ = fmt.Fprintln(os.Stderr, \"process-compose:\", message)",
+  "}",
+  "p.Executable = shellConf.ShellCommand",
+  "if len(p.Command) == 0 {",
+  "return",
+  "}",
+  "if p.IsElevated {",
+  "p.Args = []string{shellConf.ShellArgument, fmt.Sprintf(\"%s %s %s\", shellConf.ElevatedShellCmd, elevatedShellArg, p.Command)}",
+  "} else {",
+  "p.Args = []string{shellConf.ShellArgument, p.Command}",
+  "}",
+  "} else {",
+  "if p.IsElevated {",
+  "p.Entrypoint = append([]string{shellConf.ElevatedShellCmd, elevatedShellArg}, p.Entrypoint...)",
+  "}",
+  "p.Executable = p.Entrypoint[0]",
+  "p.Args = p.Entrypoint[1:]",
+  "}",
+  "}"]
+
+/-- src/types/process.go:ProcessConfig.CalculateReplicaName -/
+def types_process__ProcessConfig_CalculateReplicaName : List String := [
+  "func (p *ProcessConfig) CalculateReplicaName() string {",
+  "if p.Replicas <= 1 {",
+  "return p.Name",
+  "}",
+  "myWidth := 1 + int(math.Log10(float64(p.Replicas)))",
+  "return fmt.Sprintf(\"%s-%0*d\", p.Name, myWidth, p.ReplicaNum)",
+  "}"]
+
+/-- src/types/process.go:ProcessConfig.Compare -/
+def types_process__ProcessConfig_Compare : List String := [
+  "func (p *ProcessConfig) Compare(another *ProcessConfig) bool {",
+  "if p == nil || another == nil {",
+  "return p == another",
+  "}",
+  "if p.Name != another.Name || p.Disabled != another.Disabled || p.IsDaemon != another.IsDaemon || p.Command != another.Command || p.LogLocation != another.LogLocation || p.ReadyLogLine != another.ReadyLogLine || p.DisableAnsiColors != another.DisableAnsiColors || p.WorkingDir != another.WorkingDir || p.Namespace != another.Namespace || p.Replicas != another.Replicas || p.Description != another.Description || p.IsForeground != another.IsForeground || p.IsTty != another.IsTty || p.IsElevated != another.IsElevated || p.Executable != another.Executable {",
+  "return false",
+  "}",
+  "if !reflect.DeepEqual(p.LoggerConfig, another.LoggerConfig) || !reflect.DeepEqual(p.LivenessProbe, another.LivenessProbe) || !reflect.DeepEqual(p.ReadinessProbe, another.ReadinessProbe) || !reflect.DeepEqual(p.ShutDownParams, another.ShutDownParams) || !reflect.DeepEqual(p.Vars, another.Vars) || !reflect.DeepEqual(p.Extensions, another.Extensions) || !reflect.DeepEqual(p.DependsOn, another.DependsOn) || !reflect.DeepEqual(p.RestartPolicy, another.RestartPolicy) || !reflect.DeepEqual(p.Environment, another.Environment) || !reflect.DeepEqual(p.Entrypoint, another.Entrypoint) || !reflect.DeepEqual(p.Args, another.Args) {",
+  "return false",
+  "}",
+  "return true",
+  "}"]
+
+/-- src/types/process.go:ProcessConfig.GetDependencies -/
+def types_process__ProcessConfig_GetDependencies : List String := [
+  "func (p *ProcessConfig) GetDependencies() []string {",
+  "dependencies := make([]string, len(p.DependsOn))",
+  "i := 0",
+  "for k := range p.DependsOn {",
+  "dependencies[i] = k",
+  "i++",
+  "}",
+  "return dependencies",
+  "}"]
+
+/-- src/types/process.go:ProcessConfig.IsDeferred -/
+def types_process__ProcessConfig_IsDeferred : List String := [
+  "func (p *ProcessConfig) IsDeferred() bool {",
+  "return p.IsForeground || p.Disabled",
+  "}"]
+
+/-- src/types/process.go:ProcessConfig.ValidateProcessConfig -/
+def types_process__ProcessConfig_ValidateProcessConfig : List String := [
+  "func (p *ProcessConfig) ValidateProcessConfig() error {",
+  "if len(p.Extensions) == 0 {",
+  "return nil",
+  "}",
+  "for extKey := range p.Extensions {",
+  "if strings.HasPrefix(extKey, \"x-\") {",
+  "continue",
+  "}",
+  "return fmt.Errorf(\"unknown key '%s' found in process '%s'\", extKey, p.Name)",
+  "}",
+  "return nil",
+  "}"]
+
+/-- src/types/process.go:ProcessState.IsReady -/
+def types_process__ProcessState_IsReady : List String := [
+  "func (p *ProcessState) IsReady() bool {",
+  "if p.Status != ProcessStateRunning && p.Status != ProcessStateForeground && p.Status != ProcessStateLaunched && p.Status != ProcessStateCompleted && p.Status != ProcessStateSkipped && p.Status != ProcessStateDisabled && p.Status != ProcessStateRestarting {",
+  "return false",
+  "} else if p.Status == ProcessStateDisabled {",
+  "return true",
+  "} else if p.HasHealthProbe && p.Health != ProcessHealthReady {",
+  "return false",
+  "} else if p.Health != ProcessHealthReady && p.Health != ProcessHealthUnknown {",
+  "return false",
+  "} else if p.ExitCode != 0 {",
+  "return false",
+  "}",
+  "return true",
+  "}"]
+
+/-- src/types/process.go:ProcessesState.IsReady -/
+def types_process__ProcessesState_IsReady : List String := [
+  "func (p *ProcessesState) IsReady() bool {",
+  "for _, state := range p.States {",
+  "if !state.IsReady() {",
+  "return false",
+  "}",
+  "}",
+  "return true",
+  "}"]
+
+/-- src/types/process.go:compareStructs -/
+def types_process__compareStructs : List String := [
+  "func compareStructs(a, b interface{}) []string {",
+  "var differences []string",
+  "aValue := reflect.ValueOf(a)",
+  "bValue := reflect.ValueOf(b)",
+  "if aValue.Type() != bValue.Type() {",
+  "return []string{\"Types are different\"}",
+  "}",
+  "for i := 0; i < aValue.NumField(); i++ {",
+  "aField := aValue.Field(i)",
+  "bField := bValue.Field(i)",
+  "fieldName := aValue.Type().Field(i).Name",
+  "if !reflect.DeepEqual(aField.Interface(), bField.Interface()) {",
+  "differences = append(differences, fmt.Sprintf(\"Field %s differs: %v != %v\", fieldName, aField, bField))",
+  "}",
+  "}",
+  "return differences",
+  "}"]
+
+/-- src/types/process.go: its functions -/
+def types_process__names : List String := [
+  "ProcessConfig.GetDependencies",
+  "ProcessConfig.CalculateReplicaName",
+  "ProcessConfig.IsDeferred",
+  "ProcessConfig.Compare",
+  "ProcessConfig.AssignProcessExecutableAndArgs",
+  "ProcessConfig.ValidateProcessConfig",
+  "compareStructs",
+  "NewProcessState",
+  "ProcessesState.IsReady",
+  "ProcessState.IsReady"]
+
 /-- src/types/project.go:Project.GetDependenciesOrderNames -/
 def types_project__Project_GetDependenciesOrderNames : List String := [
   "func (p *Project) GetDependenciesOrderNames() ([]string, error) {",
@@ -2984,6 +4337,27 @@ def types_project__Project_GetDependenciesOrderNames : List String := [
   "return nil",
   "})",
   "return order, err",
+  "}"]
+
+/-- src/types/project.go:Project.GetElevatedShellArg -/
+def types_project__Project_GetElevatedShellArg : List String := [
+  "func (p *Project) GetElevatedShellArg() string {",
+  "elevatedShellArg := p.ShellConfig.ElevatedShellArg",
+  "if p.IsTuiDisabled {",
+  "elevatedShellArg = \"\"",
+  "}",
+  "return elevatedShellArg",
+  "}"]
+
+/-- src/types/project.go:Project.GetLexicographicProcessNames -/
+def types_project__Project_GetLexicographicProcessNames : List String := [
+  "func (p *Project) GetLexicographicProcessNames() ([]string, error) {",
+  "names := []string{}",
+  "for name := range p.Processes {",
+  "names = append(names, name)",
+  "}",
+  "sort.Strings(names)",
+  "return names, nil",
   "}"]
 
 /-- src/types/project.go:Project.GetProcesses -/
@@ -3048,5 +4422,14 @@ def types_project__Project_withProcesses : List String := [
   "}",
   "return finalErr",
   "}"]
+
+/-- src/types/project.go: its functions -/
+def types_project__names : List String := [
+  "Project.WithProcesses",
+  "Project.GetDependenciesOrderNames",
+  "Project.GetLexicographicProcessNames",
+  "Project.GetElevatedShellArg",
+  "Project.GetProcesses",
+  "Project.withProcesses"]
 
 end PC.Skel
